@@ -1,11 +1,11 @@
 (** C18 - simplest_from_f32 / simplest_from_f64 outside finding F04: for every format (mb >= 1
     mantissa bits, any exponent width) and every bit pattern whose last mantissa bit has a
-    non-positive exponent (ulp <= 1, i.e. not [known_ieee]) and which is not a normal power of two,
-    the as-is model of impl_simplest_from_float! equals the specification.
-    PARTIAL: normal powers of two (M = 0, E >= 2) are left out.  There the code's lower bound is
-    f - ulp/2 instead of f - ulp/4; the answers still agree (every fraction below f in the wider
-    interval is less simple than f itself), which is observed on every run (class pow2) but not
-    proved here. *)
+    non-positive exponent (ulp <= 1, i.e. not [known_ieee]) the as-is model of
+    impl_simplest_from_float! equals the specification [simplest_from_ieee_spec].
+    Two cases: (1) not a normal power of two - the code's interval f -+ ulp/2 IS the specified one
+    (up to the order of the end points); (2) normal powers of two (M = 0, E >= 2) - the code's
+    lower bound is f - ulp/2 instead of f - ulp/4, but f itself is simpler than every fraction of
+    [f - ulp/2, f), so the optimum of the wider interval is the optimum of the specified one. *)
 From Dashu Require Import Base.Prelude Ratio.BinIter Float.RoundSpec Ratio.SimplestSpec Ratio.SimplestModel
   Ratio.SimplerOrder Ratio.SimplestProof Ratio.SimplestAsis Ratio.FareyProof Ratio.SimplestClosed Ratio.SimplestFindings
   Ratio.SimplestFloatEq.
@@ -91,7 +91,7 @@ Proof.
   rewrite Z.pow_add_r by lia. rewrite Z.pow_1_r, Z.even_mul. cbn [Z.even orb]. destruct (Z.even M); reflexivity.
 Qed.
 
-Theorem simplest_from_ieee_asis_spec_partial : forall mb eb bits, 1 <= mb ->
+Theorem simplest_from_ieee_asis_spec_nonpow2 : forall mb eb bits, 1 <= mb ->
   known_ieee mb eb bits = false ->
   (bits mod 2 ^ mb =? 0) && (2 <=? (bits / 2 ^ mb) mod 2 ^ eb) = false ->
   simplest_from_ieee_asis mb eb bits = simplest_from_ieee_spec mb eb bits.
@@ -147,4 +147,270 @@ Example simplest_from_ieee_examples :
   known_ieee 23 8 1036831949 = false /\ simplest_from_ieee_asis 23 8 1036831949 = Ok (Some (1, 10)) /\
   simplest_from_ieee_asis 23 8 3226018962 = Ok (Some (-22, 7)) /\ simplest_from_ieee_spec 23 8 3226018962 = Ok (Some (-22, 7)) /\
   known_ieee 52 11 1 = false /\ simplest_from_ieee_asis 52 11 1 = simplest_from_ieee_spec 52 11 1.
+Proof. repeat split; vm_compute; reflexivity. Qed.
+
+(** * normal powers of two: the code's interval is wider below f, the optimum is the same *)
+
+(** ** order helpers (positive denominators) *)
+Lemma fval_lt_trans : forall x y z, 0 < snd x -> 0 < snd y -> 0 < snd z -> fval_lt x y -> fval_lt y z -> fval_lt x z.
+Proof. intros [a b] [c d] [e f]; unfold fval_lt; cbn [fst snd]; intros. apply (flt_trans a b c d e f); lia. Qed.
+
+Lemma fval_lt_le_trans : forall x y z, 0 < snd x -> 0 < snd y -> 0 < snd z -> fval_lt x y -> ~ fval_lt z y -> fval_lt x z.
+Proof. intros [a b] [c d] [e f]; unfold fval_lt; cbn [fst snd]; intros. apply (flt_trans a b c d e f); lia. Qed.
+
+(** shrinking the lower end of an interval does not change the optimum when some F inside the
+    smaller interval is simpler than everything of the larger interval below F *)
+Lemma closed_shrink : forall lo lo' hi il il' ih F,
+  canon lo -> canon lo' -> canon hi -> canon F ->
+  fval_lt lo lo' -> fval_lt lo' F -> fval_lt F hi ->
+  (forall s, canon s -> ~ fval_lt s lo -> fval_lt s F -> simpler F s = true) ->
+  simplest_closed (lo, hi, il, ih) = simplest_closed (lo', hi, il', ih).
+Proof.
+  intros lo lo' hi il il' ih F Clo Clo' Chi CF H1 H2 H3 HF.
+  pose proof (proj1 Clo) as Plo. pose proof (proj1 Clo') as Plo'. pose proof (proj1 Chi) as Phi. pose proof (proj1 CF) as PF.
+  assert (HloF : fval_lt lo F) by (apply (fval_lt_trans lo lo' F); assumption).
+  assert (Hlohi : fval_lt lo hi) by (apply (fval_lt_trans lo F hi); assumption).
+  assert (Hlo'hi : fval_lt lo' hi) by (apply (fval_lt_trans lo' F hi); assumption).
+  destruct (simplest_closed_correct lo hi il ih Clo Chi Hlohi) as (ra & Ea & Ma & Oa).
+  destruct (simplest_closed_correct lo' hi il' ih Clo' Chi Hlo'hi) as (rs & Es & Ms & Os).
+  rewrite Ea, Es. f_equal.
+  cbn [member] in Ma, Ms. destruct Ma as (Ca & Ha). destruct Ms as (Cs & Hs).
+  pose proof (proj1 Ca) as Pa. pose proof (proj1 Cs) as Ps.
+  assert (MF : member (lo, hi, il, ih) F) by (cbn [member]; split; [exact CF|left; split; assumption]).
+  assert (S1 : ~ fval_lt ra F).
+  { intros Hlt. assert (Hnlo : ~ fval_lt ra lo).
+    { destruct Ha as [(A & _)|[(_ & E)|(_ & E)]]; [|subst ra..]; unfold fval_lt in *; lia. }
+    pose proof (HF ra Ca Hnlo Hlt) as HFr.
+    assert (HFne : F <> ra) by (intros E; subst ra; unfold fval_lt in Hlt; lia).
+    pose proof (Oa F MF HFne) as Hr. pose proof (simpler_asym _ _ Hr). congruence. }
+  assert (M2 : member (lo', hi, il', ih) ra).
+  { cbn [member]. split; [exact Ca|]. destruct Ha as [(A & B)|[(_ & E)|(Hc & E)]].
+    - left. split; [|exact B]. apply (fval_lt_le_trans lo' F ra); assumption.
+    - subst ra. contradiction (S1 HloF).
+    - right; right. split; assumption. }
+  assert (M3 : member (lo, hi, il, ih) rs).
+  { cbn [member]. split; [exact Cs|]. destruct Hs as [(A & B)|[(_ & E)|(Hc & E)]].
+    - left. split; [apply (fval_lt_trans lo lo' rs); assumption|exact B].
+    - subst rs. left. split; [exact H1|exact Hlo'hi].
+    - right; right; split; assumption. }
+  destruct (frac_eq_dec ra rs) as [E|NE]; [exact E|].
+  pose proof (Oa rs M3 (fun e => NE (eq_sym e))) as X1. pose proof (Os ra M2 NE) as X2.
+  pose proof (simpler_asym _ _ X1). congruence.
+Qed.
+
+(** ** negation symmetry for positive intervals *)
+Lemma fneg_invol : forall x, fneg (fneg x) = x.
+Proof. intros [n d]. unfold fneg. cbn [fst snd]. rewrite Z.opp_involutive. reflexivity. Qed.
+
+Definition rmap (f : frac -> frac) (r : result frac) : result frac :=
+  match r with Ok x => Ok (f x) | Panic e => Panic e | Err e => Err e | OutOfFuel => OutOfFuel end.
+
+Lemma simplest_in_spec_neg : forall lo hi, 0 < fst lo -> 0 < snd lo -> 0 < snd hi -> fval_lt lo hi ->
+  simplest_in_spec (fneg hi) (fneg lo) = rmap fneg (simplest_in_spec lo hi).
+Proof.
+  intros [ln ld] [hn hd] Hln Hld Hhd Hlt. unfold fval_lt in Hlt. cbn [fst snd] in *.
+  assert (Hhn : 0 < hn) by nia.
+  unfold simplest_in_spec, feq, flt, fneg. cbn [fst snd].
+  destruct (Z.eqb_spec (- hn * ld) (- ln * hd)); [lia|]. destruct (Z.ltb_spec (- hn * ld) (- ln * hd)); [|lia].
+  destruct (Z.eqb_spec (ln * hd) (hn * ld)); [lia|]. destruct (Z.ltb_spec (ln * hd) (hn * ld)); [|lia].
+  cbn [fst snd]. destruct (Z.ltb_spec (- hn) 0); [|lia]. destruct (Z.ltb_spec 0 (- ln)); [lia|]. cbn [andb].
+  destruct (Z.leb_spec 0 (- hn)); [lia|]. destruct (Z.ltb_spec ln 0); [lia|]. cbn [andb]. destruct (Z.leb_spec 0 ln); [|lia].
+  rewrite !Z.opp_involutive.
+  destruct (simplest_pos (ln, ld) (hn, hd)); reflexivity.
+Qed.
+
+Lemma pick_fneg : forall c x best, 0 < fst x -> 0 < fst best -> pick c (fneg x) (fneg best) = fneg (pick c x best).
+Proof.
+  intros c [xn xd] [bn bd] Hx Hb. unfold pick, fneg. cbn [fst snd] in *. rewrite (simpler_neg xn xd bn bd Hx Hb).
+  destruct (c && simpler (xn, xd) (bn, bd)); reflexivity.
+Qed.
+
+Lemma simplest_closed_neg : forall lo hi il ih, canon lo -> canon hi -> 0 < fst lo -> fval_lt lo hi ->
+  simplest_closed (fneg hi, fneg lo, ih, il) = rmap fneg (simplest_closed (lo, hi, il, ih)).
+Proof.
+  intros lo hi il ih Clo Chi Hpos Hlt. pose proof (proj1 Clo) as Plo. pose proof (proj1 Chi) as Phi.
+  unfold simplest_closed. rewrite (simplest_in_spec_neg lo hi Hpos Plo Phi Hlt).
+  destruct (simplest_in_spec_correct lo hi Plo Phi) as (r0 & E & _ & Hcase).
+  { unfold fval_eq. unfold fval_lt in Hlt. lia. }
+  destruct Hcase as [(_ & Hb)|(Hrev & _)]; [|unfold fval_lt in *; lia].
+  destruct Hb as (Pr & Hl & Hh & _). rewrite E. cbn [rmap]. f_equal.
+  unfold fval_lt in Hlt, Hl, Hh.
+  assert (Hr0 : 0 < fst r0) by nia. assert (Hhi : 0 < fst hi) by nia.
+  rewrite (pick_fneg ih hi r0 Hhi Hr0).
+  assert (Hp : 0 < fst (pick ih hi r0)) by (unfold pick; destruct (ih && simpler hi r0); assumption).
+  rewrite (pick_fneg il lo _ Hpos Hp). rewrite pick_comm. reflexivity.
+Qed.
+
+(** ** units of 2^t with t < 0 *)
+Lemma units_neg : forall B t x X, t < 0 -> uval B t x X 1 -> fst x * B ^ (- t) = X * snd x.
+Proof.
+  intros B t x X Ht U. unfold uval in U. rewrite Z.abs_neq in U by lia.
+  replace (t + - t) with 0 in U by ring. rewrite Z.pow_0_r in U. lia.
+Qed.
+
+Lemma simpler_den_lt : forall x y, snd x < snd y -> simpler x y = true.
+Proof. intros x y H. unfold simpler. apply Z.compare_lt_iff in H. rewrite H. reflexivity. Qed.
+
+Section Pow2.
+  Variables mb ex : Z.
+  Hypothesis Hmb : 1 <= mb.
+  Hypothesis Hex : ex <= 0.
+  Let T := 2 ^ mb.
+  Let t := ex - 2.
+  Let Q := 2 ^ (- t).
+  Let lo_a := scaled 2 (4 * T - 2) t 1.
+  Let lo_s := scaled 2 (4 * T - 1) t 1.
+  Let hi_m := scaled 2 (4 * T + 2) t 1.
+  Let F := scaled 2 (4 * T) t 1.
+
+  Lemma T_ge : 2 <= T.
+  Proof. unfold T. replace mb with (1 + (mb - 1)) by ring. rewrite Z.pow_add_r by lia. assert (0 < 2 ^ (mb - 1)) by (apply Z.pow_pos_nonneg; lia). lia. Qed.
+
+  Lemma Q_ge : 4 <= Q.
+  Proof. unfold Q, t. replace (- (ex - 2)) with (2 + - ex) by ring. rewrite Z.pow_add_r by lia. assert (0 < 2 ^ (- ex)) by (apply Z.pow_pos_nonneg; lia). lia. Qed.
+
+  Lemma sc_units : forall X, let y := scaled 2 X t 1 in canon y /\ fst y * Q = X * snd y.
+  Proof.
+    intros X y. split; [apply scaled_canon; lia|]. apply (units_neg 2 t y X); [unfold t; lia|].
+    apply uval_scaled; lia.
+  Qed.
+
+  Lemma sc_lt : forall X1 X2, X1 < X2 -> fval_lt (scaled 2 X1 t 1) (scaled 2 X2 t 1).
+  Proof.
+    intros X1 X2 H. destruct (sc_units X1) as ((P1 & _) & U1). destruct (sc_units X2) as ((P2 & _) & U2).
+    cbv zeta in *. unfold fval_lt. pose proof Q_ge.
+    set (x := scaled 2 X1 t 1) in *. set (y := scaled 2 X2 t 1) in *.
+    assert (fst x * snd y * Q < fst y * snd x * Q); [|nia].
+    replace (fst x * snd y * Q) with ((fst x * Q) * snd y) by ring. rewrite U1.
+    replace (fst y * snd x * Q) with ((fst y * Q) * snd x) by ring. rewrite U2.
+    assert (0 < snd x * snd y) by nia. nia.
+  Qed.
+
+  Lemma four_T : 4 * T = 2 ^ (mb + 2).
+  Proof. unfold T. rewrite Z.pow_add_r by lia. change (2 ^ 2) with 4. ring. Qed.
+
+  (** f is simpler than every canonical fraction of [f - ulp/2, f) *)
+  Lemma F_simpler : forall s, canon s -> ~ fval_lt s lo_a -> fval_lt s F -> simpler F s = true.
+  Proof.
+    intros [n d] (Pd & _) Hge Hlt. cbn [fst snd] in Pd.
+    destruct (sc_units (4 * T - 2)) as ((Pa & _) & Ua). destruct (sc_units (4 * T)) as (CF & UF). cbv zeta in *.
+    fold lo_a in Pa, Ua. fold F in CF, UF. pose proof (proj1 CF) as PF.
+    pose proof T_ge as HT. pose proof Q_ge as HQ.
+    unfold fval_lt in Hge, Hlt. cbn [fst snd] in Hge, Hlt.
+    (* I1: (4T - 2) d <= n Q ;  I2: n Q < 4 T d *)
+    assert (I1 : (4 * T - 2) * d <= n * Q).
+    { assert ((4 * T - 2) * d * snd lo_a <= n * Q * snd lo_a); [|nia].
+      replace ((4 * T - 2) * d * snd lo_a) with (((4 * T - 2) * snd lo_a) * d) by ring. rewrite <- Ua.
+      assert (fst lo_a * d * Q <= n * snd lo_a * Q) by nia. lia. }
+    assert (I2 : n * Q < 4 * T * d).
+    { assert (n * Q * snd F < 4 * T * d * snd F); [|nia].
+      replace (4 * T * d * snd F) with ((4 * T * snd F) * d) by ring. rewrite <- UF.
+      assert (n * snd F * Q < fst F * d * Q) by nia. lia. }
+    destruct (Z.le_gt_cases 0 (mb + ex)) as [Hk|Hk].
+    - (* f = 2^k is an integer *)
+      assert (EF : F = (2 ^ (mb + ex), 1)).
+      { apply canon_eq; [exact CF|split; [cbn [snd]; lia|cbn [fst snd]; apply Z.gcd_1_r]|].
+        unfold fval_eq. cbn [fst snd].
+        assert (HQk : 2 ^ (mb + ex) * Q = 4 * T).
+        { rewrite four_T. unfold Q, t. rewrite <- Z.pow_add_r by lia. f_equal. ring. }
+        assert (fst F * 1 * Q = 2 ^ (mb + ex) * snd F * Q); [|nia].
+        replace (fst F * 1 * Q) with (fst F * Q) by ring. rewrite UF. rewrite <- HQk. ring. }
+      rewrite EF. destruct (Z.eq_dec d 1) as [->|Hd]; [exfalso|apply simpler_den_lt; cbn [snd]; lia].
+      assert (HQk : 2 ^ (mb + ex) * Q = 4 * T).
+      { rewrite four_T. unfold Q, t. rewrite <- Z.pow_add_r by lia. f_equal. ring. }
+      assert (n < 2 ^ (mb + ex)) by nia. assert (n * Q <= (2 ^ (mb + ex) - 1) * Q) by nia. lia.
+    - (* f = 1 / 2^(-k) *)
+      set (D := 2 ^ (- (mb + ex))).
+      assert (HD : 0 < D) by (apply Z.pow_pos_nonneg; lia).
+      assert (HQD : 4 * T * D = Q).
+      { rewrite four_T. unfold D, Q, t. rewrite <- Z.pow_add_r by lia. f_equal. ring. }
+      assert (EF : F = (1, D)).
+      { apply canon_eq; [exact CF|split; [cbn [snd]; exact HD|cbn [fst snd]; apply Z.gcd_1_l]|].
+        unfold fval_eq. cbn [fst snd].
+        assert (fst F * D * (4 * T) = 1 * snd F * (4 * T)); [|nia].
+        replace (fst F * D * (4 * T)) with (fst F * (4 * T * D)) by ring. rewrite HQD, UF. ring. }
+      rewrite EF. apply simpler_den_lt. cbn [snd].
+      assert (0 < n) by nia.
+      assert (n * (4 * T * D) < 4 * T * d) by (rewrite HQD; exact I2).
+      assert (n * D < d) by nia. nia.
+  Qed.
+
+  Lemma pow2_shrink : forall i i',
+    simplest_closed (lo_a, hi_m, i, i) = simplest_closed (lo_s, hi_m, i', i).
+  Proof.
+    intros i i'.
+    apply (closed_shrink lo_a lo_s hi_m i i' i F); try (apply scaled_canon; lia); try (apply sc_lt; lia).
+    exact F_simpler.
+  Qed.
+
+  Lemma sc_pos : forall X, 0 < X -> 0 < fst (scaled 2 X t 1).
+  Proof.
+    intros X HX. destruct (sc_units X) as ((Pa & _) & Ua). cbv zeta in *. pose proof Q_ge. nia.
+  Qed.
+End Pow2.
+
+Theorem simplest_from_ieee_asis_spec_pow2 : forall mb eb bits, 1 <= mb ->
+  known_ieee mb eb bits = false ->
+  (bits mod 2 ^ mb =? 0) && (2 <=? (bits / 2 ^ mb) mod 2 ^ eb) = true ->
+  simplest_from_ieee_asis mb eb bits = simplest_from_ieee_spec mb eb bits.
+Proof.
+  intros mb eb bits Hmb Hk Hpw.
+  pose proof (simplest_from_ieee_asis_closed mb eb bits) as HA. cbv zeta in HA. rewrite HA. clear HA.
+  unfold simplest_from_ieee_spec, ieee_interval_spec. cbv zeta.
+  unfold known_ieee in Hk. cbv zeta in Hk.
+  set (E := (bits / 2 ^ mb) mod 2 ^ eb) in *.
+  set (M := bits mod 2 ^ mb) in *.
+  set (ex := (if E =? 0 then 1 else E) - (2 ^ (eb - 1) - 1) - mb) in *.
+  set (man0 := if E =? 0 then M else M + 2 ^ mb) in *.
+  assert (Hex : ex <= 0) by (apply Z.ltb_ge in Hk; exact Hk).
+  rewrite Hpw. apply andb_prop in Hpw. destruct Hpw as (HM & HE). apply Z.eqb_eq in HM. apply Z.leb_le in HE.
+  assert (Hev : Z.even bits = Z.even man0).
+  { unfold man0, M. destruct (E =? 0); [|rewrite even_hidden_bit by exact Hmb]; symmetry; apply even_low_bits; exact Hmb. }
+  assert (Hman : man0 = 2 ^ mb) by (unfold man0; destruct (Z.eqb_spec E 0); lia).
+  rewrite Hev. clearbody man0. subst man0.
+  destruct (E =? 2 ^ eb - 1); [reflexivity|].
+  replace ((E =? 0) && (M =? 0)) with false by (destruct (Z.eqb_spec E 0); [lia|reflexivity]).
+  set (i := Z.even (2 ^ mb)).
+  set (lo_a := scaled 2 (4 * 2 ^ mb - 2) (ex - 2) 1). set (lo_s := scaled 2 (4 * 2 ^ mb - 1) (ex - 2) 1).
+  set (hi_m := scaled 2 (4 * 2 ^ mb + 2) (ex - 2) 1).
+  assert (Ca : canon lo_a) by (apply scaled_canon; lia). assert (Cs : canon lo_s) by (apply scaled_canon; lia).
+  assert (Ch : canon hi_m) by (apply scaled_canon; lia).
+  pose proof (T_ge mb ex Hmb Hex) as HT.
+  assert (Lah : fval_lt lo_a hi_m) by (apply (sc_lt mb ex Hmb Hex); lia).
+  assert (Lsh : fval_lt lo_s hi_m) by (apply (sc_lt mb ex Hmb Hex); lia).
+  assert (Pa : 0 < fst lo_a) by (apply (sc_pos mb ex Hmb Hex); lia).
+  assert (Ps : 0 < fst lo_s) by (apply (sc_pos mb ex Hmb Hex); lia).
+  pose proof (pow2_shrink mb ex Hmb Hex i i) as S. fold lo_a lo_s hi_m in S.
+  destruct ((bits / 2 ^ (mb + eb)) mod 2 =? 1).
+  - pose proof (est_end_p (- 2 ^ mb) ex Hex) as L. pose proof (est_end_m (- 2 ^ mb) ex Hex) as R. cbv zeta in L, R.
+    rewrite L, R.
+    replace (4 * - 2 ^ mb + 2) with (- (4 * 2 ^ mb - 2)) by ring.
+    replace (4 * - 2 ^ mb - 2) with (- (4 * 2 ^ mb + 2)) by ring.
+    rewrite <- !fneg_scaled by lia. fold lo_a hi_m.
+    rewrite (simplest_closed_swap (fneg hi_m) (fneg lo_a)) by (unfold fval_lt in *; unfold fneg; cbn [fst snd]; lia).
+    rewrite (simplest_closed_neg lo_a hi_m i i Ca Ch Pa Lah).
+    rewrite (simplest_closed_neg lo_s hi_m i i Cs Ch Ps Lsh).
+    rewrite S. destruct (simplest_closed _); reflexivity.
+  - pose proof (est_end_p (2 ^ mb) ex Hex) as L. pose proof (est_end_m (2 ^ mb) ex Hex) as R. cbv zeta in L, R.
+    rewrite L, R. fold lo_a hi_m.
+    rewrite (simplest_closed_swap lo_a hi_m) by exact Lah.
+    rewrite S. destruct (simplest_closed _); reflexivity.
+Qed.
+
+(** ** the headline for f32 / f64: outside finding F04 the macro computes the specified optimum *)
+Theorem simplest_from_ieee_asis_spec : forall mb eb bits, 1 <= mb ->
+  known_ieee mb eb bits = false ->
+  simplest_from_ieee_asis mb eb bits = simplest_from_ieee_spec mb eb bits.
+Proof.
+  intros mb eb bits Hmb Hk.
+  destruct ((bits mod 2 ^ mb =? 0) && (2 <=? (bits / 2 ^ mb) mod 2 ^ eb)) eqn:Hpw.
+  - apply simplest_from_ieee_asis_spec_pow2; assumption.
+  - apply simplest_from_ieee_asis_spec_nonpow2; assumption.
+Qed.
+
+Example simplest_from_ieee_pow2_examples :
+  known_ieee 23 8 1065353216 = false /\ simplest_from_ieee_asis 23 8 1065353216 = Ok (Some (1, 1)) /\
+  known_ieee 23 8 3196059648 = false /\ simplest_from_ieee_asis 23 8 3196059648 = Ok (Some (-1, 4)) /\
+  known_ieee 52 11 4503599627370496 = false /\
+  simplest_from_ieee_asis 52 11 4503599627370496 = simplest_from_ieee_spec 52 11 4503599627370496.
 Proof. repeat split; vm_compute; reflexivity. Qed.
